@@ -169,6 +169,18 @@ func runRoundTrip() int {
 		var outcome *notation.VerificationOutcome
 		var wantTarget ocispec.Descriptor
 		panicked, msg := guarded(func() {
+			if mix(*flagSeed, c.ID, "used")%3 == 1 {
+				// signer and verifier have been used before: another blob, other metadata, another expiry - what follows must
+				// not depend on it
+				dopts := sopts
+				dopts.ExpiryDuration = 48 * time.Hour
+				dblob := []byte("a decoy blob signed before the case proper\n")
+				if dsig, _, derr := notation.SignBlob(ctx, sg, bytes.NewReader(dblob), notation.SignBlobOptions{SignerSignOptions: dopts, ContentMediaType: "text/plain",
+					UserMetadata: map[string]string{"decoy": "yes", "team": "decoy-team"}}); derr == nil {
+					_, _, _ = notation.VerifyBlob(ctx, bver, bytes.NewReader(dblob), dsig, notation.VerifyBlobOptions{ContentMediaType: "text/plain",
+						BlobVerifierVerifyOptions: notation.BlobVerifierVerifyOptions{SignatureMediaType: mediaTypeOf(in.Format), TrustPolicyName: "bp"}})
+				}
+			}
 			if in.API == "oci" {
 				store := memory.New()
 				repo := registry.NewRepository(store)
